@@ -126,7 +126,11 @@ func (Engine) Generate(prop string, r *kit.Rand, tier string) *kit.Scenario[Conf
 			o := Op{Op: "data", Name: genName(r, pool), Var: r.Intn(2), Lp: r.Chance(0.3)}
 			sc.Ops = append(sc.Ops, o)
 		case 2:
-			sc.Ops = append(sc.Ops, Op{Op: "nack", Name: genName(r, pool)})
+			no := Op{Op: "nack", Name: genName(r, pool)}
+			if r.Chance(0.2) {
+				no.Digest = r.Range(1, 2)
+			}
+			sc.Ops = append(sc.Ops, no)
 		case 3:
 			sc.Ops = append(sc.Ops, Op{Op: "advance", Ms: kit.Pick(r, []int{0, 1, 9, 10, 11, 50, 100, 109, 110, 111, 500, 1010, 4010})})
 		case 4:
@@ -534,7 +538,14 @@ func (e Engine) runBody(t *testing.T, ctx *kit.Ctx, sc *kit.Scenario[Config, Op]
 				feed[j] = 0xEE
 			}
 		case "nack":
-			ei, _ := spec.Spec{}.MakeInterest(mkName(op.Name), &ndn.InterestConfig{Nonce: utils.IdPtr(uint64(7))}, nil, nil)
+			nn := mkName(op.Name)
+			if op.Digest > 0 {
+				// a Nack for an Interest that carried an implicit digest: the name in the Nack ends with it
+				sum := sha256.Sum256(dataWire(op.Name, op.Digest-1))
+				nn = append(nn.Clone(), enc.Component{Typ: enc.TypeImplicitSha256DigestComponent, Val: sum[:]})
+				ctx.Probe("nack-for-a-name-with-implicit-digest")
+			}
+			ei, _ := spec.Spec{}.MakeInterest(nn, &ndn.InterestConfig{Nonce: utils.IdPtr(uint64(7))}, nil, nil)
 			lp := &spec.Packet{LpPacket: &spec.LpPacket{Nack: &spec.NetworkNack{Reason: spec.NackReasonNoRoute}, Fragment: ei.Wire}}
 			encoder := spec.PacketEncoder{}
 			encoder.Init(lp)
@@ -905,8 +916,18 @@ func (e Engine) runBody(t *testing.T, ctx *kit.Ctx, sc *kit.Scenario[Config, Op]
 					return fail("C20/data-result-altered", "", "callback Data %s differs from delivered Data %s", cb.data, dataName)
 				}
 			case "nack":
-				if op.Op != "nack" || p.name != op.Name {
-					return fail("C20/nack-for-other-name", "", "Interest #%d %s resolved with Nack during %s %s", p.id, p.name, op.Op, op.Name)
+				same := op.Op == "nack" && p.name == op.Name
+				if same {
+					// "a Nack for that name": the implicit digest is part of the name
+					var nd []byte
+					if op.Digest > 0 {
+						sum := sha256.Sum256(dataWire(op.Name, op.Digest-1))
+						nd = sum[:]
+					}
+					same = string(nd) == string(p.digest)
+				}
+				if !same {
+					return fail("C20/nack-for-other-name", "", "Interest #%d %s (digest %v) resolved with Nack during %s %s (digest variant %d)", p.id, p.name, p.digest != nil, op.Op, op.Name, op.Digest)
 				}
 			case "timeout":
 				if now.Before(p.t0.Add(p.life)) {
